@@ -206,6 +206,64 @@ Proof. intros H [F1 F2]. rewrite grid_cell_R by exact H. apply fcell_complete; a
 Lemma grid_outside a x y : wf_area a -> ~ in_extent a x y -> grid_cell RO a x y = None.
 Proof. intros H. rewrite grid_cell_R by exact H. apply fcell_outside; [lia | exact H]. Qed.
 
+(* utils.generate_quick_linesample_arrays: the downcast never changes which cell, if any, an index pair denotes *)
+Lemma downcast_in_range size idx : (0 <= size)%Z ->
+  in_range size (downcast size idx) = in_range size idx /\ (in_range size idx = true -> downcast size idx = idx).
+Proof.
+  intros Hs. unfold downcast, downcast_with, in_range. cbn [andb].
+  destruct (Z.leb_spec size 65535) as [L | L]; [| split; [reflexivity | intros _; reflexivity]].
+  destruct (Z.ltb_spec idx 0) as [N | N]; cbn [orb].
+  - rewrite Z.mod_small by lia. split.
+    + destruct (Z.leb_spec 0 size); destruct (Z.ltb_spec size size); destruct (Z.leb_spec 0 idx); cbn; lia || reflexivity.
+    + destruct (Z.leb_spec 0 idx); cbn; [lia | discriminate].
+  - destruct (Z.leb_spec size idx) as [G | G].
+    + rewrite Z.mod_small by lia. split.
+      * destruct (Z.leb_spec 0 size); destruct (Z.ltb_spec size size); destruct (Z.leb_spec 0 idx); destruct (Z.ltb_spec idx size); cbn; lia || reflexivity.
+      * destruct (Z.leb_spec 0 idx); destruct (Z.ltb_spec idx size); cbn; try discriminate; lia.
+    + rewrite Z.mod_small by lia. split; [reflexivity | intros _; reflexivity].
+Qed.
+
+Lemma cell_of_downcast (a : area R) r c : (0 <= width a)%Z -> (0 <= height a)%Z ->
+  cell_of a (downcast (height a) r) (downcast (width a) c) = cell_of a r c.
+Proof.
+  intros Hw Hh. unfold cell_of.
+  destruct (downcast_in_range (height a) r Hh) as [E1 V1]. destruct (downcast_in_range (width a) c Hw) as [E2 V2].
+  rewrite E1, E2. destruct (in_range (height a) r) eqn:A; destruct (in_range (width a) c) eqn:B; cbn; try reflexivity.
+  rewrite V1, V2 by reflexivity. reflexivity.
+Qed.
+
+Lemma quick_is_grid a x y : wf_area a -> quick_cell RO a x y = grid_cell RO a x y.
+Proof.
+  intros (Hw & Hh & _). unfold quick_cell, quick_row, quick_col, grid_cell, grid_cell_with, grid_row, grid_col.
+  apply cell_of_downcast; lia.
+Qed.
+Lemma quick_sound a x y r c : wf_area a -> quick_cell RO a x y = Some (r, c) -> valid_cell a r c /\ in_cell_closed a r c x y.
+Proof. intros H. rewrite quick_is_grid by exact H. apply grid_sound; exact H. Qed.
+Lemma quick_complete a x y r c : wf_area a -> fits_int32 a -> valid_cell a r c -> in_cell_open a r c x y ->
+  quick_cell RO a x y = Some (r, c).
+Proof. intros H. rewrite quick_is_grid by exact H. apply grid_complete; exact H. Qed.
+Lemma quick_outside a x y : wf_area a -> ~ in_extent a x y -> quick_cell RO a x y = None.
+Proof. intros H. rewrite quick_is_grid by exact H. apply grid_outside; exact H. Qed.
+
+(* without the `index_array < 0` part of the mask the uint16 cast wraps indices <= -65536 back into the grid:
+   a point 65536 pixels left of a 10 x 10 area is given column 0 *)
+Lemma quick_unmasked_refuted : exists (a : area R) (x y : R),
+  wf_area a /\ ~ in_extent a x y /\ quick_cell_unmasked RO a x y = Some (5%Z, 0%Z).
+Proof.
+  exists (mk_area 0 0 10 10 10%Z 10%Z), (- 65536 + / 2), (9 / 2).
+  assert (W : wf_area (mk_area 0 0 10 10 10%Z 10%Z)) by (unfold wf_area; cbn; repeat split; try lia; lra).
+  split; [exact W |]. split.
+  - unfold in_extent, between. cbn. lra.
+  - unfold quick_cell_unmasked, grid_row, grid_col, grid_row_with, grid_col_with.
+    rewrite !to_int_R, grid_col_expr, grid_row_expr by exact W.
+    assert (Eu : ufrac (mk_area 0 0 10 10 10%Z 10%Z) (- 65536 + / 2) = - 65536 + / 2) by (unfold ufrac, dxR; cbn; field).
+    assert (Ev : vfrac (mk_area 0 0 10 10 10%Z 10%Z) (9 / 2) = 11 / 2) by (unfold vfrac, dyR; cbn; field).
+    rewrite Eu, Ev. cbn [floorZ RO].
+    assert (F1 : Zfloor (- 65536 + / 2) = (-65536)%Z) by (apply Zfloor_imp; cbn; lra).
+    assert (F2 : Zfloor (11 / 2) = 5%Z) by (apply Zfloor_imp; cbn; lra).
+    rewrite F1, F2. reflexivity.
+Qed.
+
 (* GridFilter.get_valid_index *)
 Lemma gf_sound a x y r c : wf_area a -> gf_cell RO a x y = Some (r, c) -> valid_cell a r c /\ in_cell_closed a r c x y.
 Proof. intros H. rewrite gf_cell_R by exact H. apply fcell_sound; [lia | exact H]. Qed.
